@@ -49,6 +49,8 @@ def run(ctx, tier):
                    "cut off earlier, so it must not depend on a '?' having been found)")
     ctx.rule("T10", "get_origin of both URL types spells the Standard's cases: \"null\", scheme + \"//\" + host, and the http(s) URL "
                     "inside a blob URL's path")
+    ctx.rule("T6b", "'starts with a Windows drive letter' is asked of the whole remaining input, never of a view cut to two bytes")
+    ctx.rule("S2b", "authority state: behind atSignSeen the emptiness test is on the buffer (input up to the delimiter)")
     ctx.rule("S4", "in each state of the parser the set of URL components that the state's code sets equals the set the "
                    "Standard's state sets (both storing instantiations)")
     ctx.rule("S2", "direct failure exits of the parser fail under the flags the Standard names (atSignSeen for the empty authority)")
@@ -72,6 +74,8 @@ def run(ctx, tier):
         HS.check_parser_literals(ctx, fxs[name], "T8")
         HS.check_opaque_space(ctx, fxs[name], "T9")
         HS.check_origin(ctx, fxs[name], "T10")
+        HS.check_drive_letter_callers(ctx, fxs[name], "T6b")
+        HS.check_authority_buffer_test(ctx, fxs[name], "S2b")
         from rules import c01_failctx
         c01_failctx.check(ctx, fxs[name], "S2")
         from rules import lowercase
